@@ -9,6 +9,8 @@ from pyvc.state import T
 from pyvc import spec as S
 from pyvc.values import VInt, VBool, VSeq, VNone, to_val
 S.to_val = to_val
+from pyvc.values import VStr as _VStr
+S.VStr = _VStr
 from contracts.c12_cbc_check import spec_ok_vals
 
 R = 'tlslite/recordlayer.py:'
@@ -42,7 +44,7 @@ contract(R + 'ConnectionState.getSeqNumBytes',
          params={'self': T.obj(RL.ConnectionState, seqnum=T.int())},
          requires=lambda ns: (ns.f(ns.self, 'seqnum') >= 0) & (ns.f(ns.self, 'seqnum') < (1 << 64)),
          result=T.bytes(), modifies=[('self', 'seqnum')],
-         ensures=lambda ns: S.And(S.seq_eq(ns.result, S.be(ns.old.f(ns.self, 'seqnum'), 8)),
+         ensures=lambda ns: S.And(ns.result == S.be(ns.old.f(ns.self, 'seqnum'), 8),
                                   ns.f(ns.self, 'seqnum') == ns.old.f(ns.self, 'seqnum') + 1,
                                   S.len_(ns.result) == 8, S.is_bytes(ns.result)),
          prop=('C01', 'C02'),
@@ -58,24 +60,25 @@ contract(R + 'RecordLayer.addPadding',
          params={'self': record_layer(write=conn_state()), 'data': T.bytes()},
          requires=lambda ns: (_bs(ns) >= 1) & (_bs(ns) <= 256),
          result=T.bytes(),
-         ensures=lambda ns: (lambda d, r, bs, L: S.And(
-             S.len_(r) % bs == 0,
-             S.len_(r) > L, S.len_(r) <= L + bs,
-             S.seq_eq(r[0:L], d),
-             S.forall(lambda k: r[k] == S.len_(r) - L - 1, L, S.len_(r)),     # all pad bytes == padLength
-             r[S.len_(r) - 1] == S.len_(r) - L - 1, r[S.len_(r) - 1] < bs))(
+         ensures=lambda ns: (lambda d, r, bs, L: (lambda p: S.And(
+             r == S.cat(d, S.rep(p, p + 1)),          # data || (p+1) bytes of value p
+             p >= 0, p < bs, (L + p + 1) % bs == 0))(bs - 1 - (L % bs)))(
                  ns.data, ns.result, _bs(ns.old), S.len_(ns.data)),
          prop=('C01', 'C12'),
          doc='pads to a multiple of the block size with p+1 bytes of value p, 0 <= p < block size; stripping p+1 bytes gives the input back')
 
 
 # --- RecordLayer.calculateMAC -----------------------------------------------
-def mac_input(seq, ctype, version, data):
-    """MAC input of RFC 5246 6.2.3.1 / RFC 6101 5.2.3.1"""
+def mac_input_tls(seq, ctype, version, data):
+    """MAC input of RFC 5246 6.2.3.1"""
     n = S.len_(data)
-    tls = S.cat(seq, S.byte(ctype), S.byte(version[0]), S.byte(version[1]), S.byte(n / 256), S.byte(n % 256), data)
-    ssl = S.cat(seq, S.byte(ctype), S.byte(n / 256), S.byte(n % 256), data)
-    return S.ite(version == (3, 0), ssl, tls)
+    return S.cat(seq, S.byte(ctype), S.byte(version[0]), S.byte(version[1]), S.byte(n / 256), S.byte(n % 256), data)
+
+
+def mac_input_ssl(seq, ctype, data):
+    """MAC input of RFC 6101 5.2.3.1 (no version)"""
+    n = S.len_(data)
+    return S.cat(seq, S.byte(ctype), S.byte(n / 256), S.byte(n % 256), data)
 
 
 contract(R + 'RecordLayer.calculateMAC',
@@ -85,10 +88,12 @@ contract(R + 'RecordLayer.calculateMAC',
                                    S.len_(ns.data) < 65536),
          result=T.bytes(), modifies=[('mac', 'fed')],
          ensures=lambda ns: S.And(
-             S.seq_eq(ns.result, S.mac_digest(ns.f(ns.mac, 'key'),
-                                              S.cat(ns.old.f(ns.mac, 'fed'),
-                                                    mac_input(ns.seqnumBytes, ns.contentType,
-                                                              ns.f(ns.self, '_version'), ns.data)))),
+             S.ite(ns.f(ns.self, '_version') == (3, 0),
+                   ns.result == S.mac_digest(ns.f(ns.mac, 'key'),
+                                             S.cat(ns.old.f(ns.mac, 'fed'), mac_input_ssl(ns.seqnumBytes, ns.contentType, ns.data))),
+                   ns.result == S.mac_digest(ns.f(ns.mac, 'key'),
+                                             S.cat(ns.old.f(ns.mac, 'fed'), mac_input_tls(ns.seqnumBytes, ns.contentType,
+                                                                                          ns.f(ns.self, '_version'), ns.data)))),
              S.len_(ns.result) == ns.f(ns.mac, 'digest_size')),
          prop=('C01', 'C02', 'C09'),
          doc='MAC over seq || type || [version] || u16(len) || data with the given keyed object')
@@ -149,3 +154,311 @@ contract(R + 'RecordLayer._decryptThenMAC',
          prop=('C12', 'C02', 'C01'),
          doc='returns only bodies that satisfy the C12 specification under the receiver\'s own sequence number, key and '
              'cipher block size, stripped of exactly MAC+padding; otherwise TLSBadRecordMAC / TLSDecryptionFailed')
+
+
+# ---------------------------------------------------------------------------
+# round-trip lemmas: receiver.unprotect(sender.protect(type, data)) == data when both
+# states hold the same keys, chaining state and sequence number (C01, O-rt-<path>)
+
+def _pair(api, cipher_kind, mac=True):
+    """sender S (write state) and receiver Rv (read state) with equal keys / state / seqnum / version"""
+    st = api.st
+    S_ = api.make('S', record_layer(write=conn_state(mac=mac, cipher=cipher_kind)))
+    Rv = api.make('R', record_layer(read=conn_state(mac=mac, cipher=cipher_kind)))
+    ns = api.ns(st)
+    ws = ns.f(S_, '_writeState')
+    rs = ns.f(Rv, '_readState')
+    h = st.heap
+    for f in ('seqnum', 'encryptThenMAC', 'fixedNonce'):
+        h[(rs.oid, f)] = h[(ws.oid, f)]
+    for ctx, fields in (('macContext', ('key', 'fed', 'digest_size', 'block_size')),
+                        ('encContext', ('key', 'state', 'block_size', 'tagLength', 'nonceLength', 'isBlockCipher',
+                                        'isAEAD', 'name'))):
+        a, b = h.get((ws.oid, ctx)), h.get((rs.oid, ctx))
+        if a is None or isinstance(a, VNone):
+            continue
+        for f in fields:
+            h[(b.oid, f)] = h[(a.oid, f)]
+    h[(Rv.oid, '_version')] = h[(S_.oid, '_version')]
+    h[(Rv.oid, '_tls13record')] = h[(S_.oid, '_tls13record')]
+    return S_, Rv, ws, rs
+
+
+def _common_requires(api, S_, ws, data, ctype, need_iv=True):
+    st = api.st
+    ns = api.ns(st)
+    mac = ns.f(ws, 'macContext')
+    enc = ns.f(ws, 'encContext')
+    st.assume(S.And(tls10_12(ns.f(S_, '_version')), ctype >= 0, ctype < 256, S.len_(data) < 16384 + 2048,
+                    ns.f(mac, 'digest_size') >= 1, ns.f(mac, 'digest_size') <= 64,
+                    ns.f(mac, 'block_size') >= 1, ns.f(mac, 'block_size') <= 256,
+                    ns.f(enc, 'block_size') >= 1, ns.f(enc, 'block_size') <= 256,
+                    S.len_(ns.f(mac, 'fed')) == 0,
+                    S.len_(ns.f(S_, 'fixedIVBlock')) == ns.f(enc, 'block_size')))
+
+
+@scenario('roundtrip-MtE-block', ('C01', 'C12'),
+          doc='_decryptThenMAC(_macThenEncrypt(data)) == data for every version SSLv3..TLS1.2, block and digest size, '
+              'payload length; both sequence numbers advance by one; cipher: Dec(k,s,Enc(k,s,x)) == x assumed')
+def rt_mte_block(api):
+    S_, Rv, ws, rs = _pair(api, 'block')
+    data = api.make('data', T.bytes())
+    ctype = api.make('ctype', T.int())
+    _common_requires(api, S_, ws, data, ctype)
+    st0 = api.st.fork()
+    seq0 = api.ns(st0).f(ws, 'seqnum')
+    for o in api.call(R + 'RecordLayer._macThenEncrypt', [S_, data, ctype], api.st):
+        if o.kind != 'normal':
+            api.unreachable(o.st, 'sender-does-not-raise(%s)' % getattr(o.val, 'origin', o.kind))
+            continue
+        wire = o.val
+        for o2 in api.call(R + 'RecordLayer._decryptThenMAC', [Rv, ctype, wire], o.st):
+            if o2.kind != 'normal':
+                api.unreachable(o2.st, 'receiver-accepts(%s %s)' % (getattr(o2.val.cls, '__name__', '?'), o2.val.origin))
+                continue
+            ns = api.ns(o2.st)
+            api.oblige(o2.st, 'plaintext-equal', S.seq_eq(o2.val, data))
+            api.oblige(o2.st, 'seqnums-in-step', S.And(ns.f(ws, 'seqnum') == seq0 + 1, ns.f(rs, 'seqnum') == seq0 + 1))
+            api.oblige(o2.st, 'chaining-state-in-step',
+                       S.seq_eq(ns.f(ns.f(ws, 'encContext'), 'state'), ns.f(ns.f(rs, 'encContext'), 'state')))
+
+
+# --- RecordLayer._tls13_de_pad (TLS 1.3 inner plaintext: content || type || zeros) ----------
+from tlslite.errors import TLSUnexpectedMessage
+
+contract(R + 'RecordLayer._tls13_de_pad',
+         params={'data': T.bytes()},
+         result=T.tuple(T.bytes(), T.int()),
+         raises={TLSUnexpectedMessage: ('iff', lambda ns: S.forall(lambda k: ns.data[k] == 0, 0, S.len_(ns.data)))},
+         ensures=lambda ns: (lambda d, body, t, n: S.And(
+             t != 0, S.len_(body) < n, d[S.len_(body)] == t,                 # the last non-zero byte is the type
+             S.forall(lambda k: d[k] == 0, S.len_(body) + 1, n),             # everything after it is zero padding
+             body == d[0:S.len_(body)]))(ns.data, ns.result[0], ns.result[1], S.len_(ns.data)),
+         loops={1: LoopSpec(lambda ns: S.forall(lambda k: ns.data[k] == 0, S.len_(ns.data) - ns.idx, S.len_(ns.data)),
+                            fingerprint='reversed')},
+         prop=('C01', 'C02'),
+         doc='splits TLSInnerPlaintext into (content, type): type is the last non-zero byte; all-zero input is rejected')
+
+
+# --- RecordLayer._macThenDecrypt (encrypt-then-MAC receive path, RFC 7366) ----------------
+def _etm_parts(ns):
+    rs = _rs(ns)
+    mac = ns.f(rs, 'macContext')
+    enc = ns.f(rs, 'encContext')
+    ds = ns.f(mac, 'digest_size')
+    n = S.len_(ns.buf)
+    return rs, mac, enc, ds, n
+
+
+def _etm_tag_ok(ns):
+    """the last ds bytes are the MAC over seq||type||version||len||ciphertext under the receiver's key and counter"""
+    rs, mac, enc, ds, n = _etm_parts(ns)
+    ct = ns.buf[0:n - ds]
+    v = ns.f(ns.self, '_version')
+    seq = S.be(ns.f(rs, 'seqnum'), 8)
+    want_tls = S.mac_digest(ns.f(mac, 'key'), S.cat(ns.f(mac, 'fed'), mac_input_tls(seq, ns.recordType, v, ct)))
+    want_ssl = S.mac_digest(ns.f(mac, 'key'), S.cat(ns.f(mac, 'fed'), mac_input_ssl(seq, ns.recordType, ct)))
+    return S.And(n >= ds, S.ite(v == (3, 0), ns.buf[n - ds:n] == want_ssl, ns.buf[n - ds:n] == want_tls))
+
+
+def _etm_plain_cases(ns, fn):
+    rs, mac, enc, ds, n = _etm_parts(ns)
+    bs = ns.f(enc, 'block_size')
+    d = VSeq(S.Dec(S.to_val(ns.f(enc, 'key')), ns.f(enc, 'state').t, ns.buf[0:n - ds].t), 'byte')
+    v = ns.f(ns.self, '_version')
+    return S.ite(v >= (3, 2), fn(d[bs:]), fn(d))
+
+
+def _etm_pad_ok(ns):
+    v = ns.f(ns.self, '_version')
+
+    def ok(p):
+        L = S.len_(p)
+        pl = p[L - 1]
+        return S.And(L >= 1, pl + 1 <= L,
+                     S.Or(v == (3, 0), S.forall(lambda k: p[k] == pl, L - 1 - pl, L - 1)))
+    return _etm_plain_cases(ns, ok)
+
+
+contract(R + 'RecordLayer._macThenDecrypt',
+         params={'self': record_layer(read=conn_state(mac=True, cipher='block')), 'recordType': T.int(),
+                 'buf': T.bytes()},
+         requires=lambda ns: (lambda rs, mac, enc, ds, n: S.And(
+             tls10_12(ns.f(ns.self, '_version')), ns.recordType >= 0, ns.recordType < 256, n < 65536,
+             ds >= 1, ds <= 64, ns.f(enc, 'block_size') >= 1, ns.f(enc, 'block_size') <= 256))(*_etm_parts(ns)),
+         result=T.bytes(),
+         raises={TLSBadRecordMAC: lambda ns: S.Or(S.Not(_etm_tag_ok(ns)), S.Not(_etm_pad_ok(ns))),
+                 TLSDecryptionFailed: lambda ns: S.And(_etm_tag_ok(ns),
+                                                       (S.len_(ns.buf) - _etm_parts(ns)[3]) % ns.f(_etm_parts(ns)[2], 'block_size') != 0)},
+         ensures=lambda ns: S.And(
+             _etm_tag_ok(ns.old), _etm_pad_ok(ns.old),
+             _etm_plain_cases(ns.old, lambda p: ns.result == p[0:S.len_(p) - 1 - p[S.len_(p) - 1]]),
+             ns.f(_rs(ns), 'seqnum') == ns.old.f(_rs(ns.old), 'seqnum') + 1),
+         loops={1: LoopSpec(lambda ns: (lambda lo: S.iff(
+             ns.paddingGood,      # stated over absolute positions of `buf` so that the quantifier triggers match the spec
+             S.forall(lambda j: ns.buf[j] == ns.paddingLength, lo, lo + ns.idx)))(
+                 S.len_(ns.buf) - ns.totalPaddingLength), fingerprint='paddingBytes')},
+         prop=('C02', 'C01'),
+         doc='EtM: accepted only if the trailing MAC over the ciphertext (receiver counter/key) matches in full and the '
+             'padding is well formed; returns exactly the plaintext without padding')
+
+
+@scenario('roundtrip-EtM-block', ('C01',),
+          doc='_macThenDecrypt(_encryptThenMAC(data)) == data, all versions / sizes; sequence numbers and chaining state in step')
+def rt_etm_block(api):
+    S_, Rv, ws, rs = _pair(api, 'block')
+    data = api.make('data', T.bytes())
+    ctype = api.make('ctype', T.int())
+    _common_requires(api, S_, ws, data, ctype)
+    seq0 = api.ns(api.st).f(ws, 'seqnum')
+    for o in api.call(R + 'RecordLayer._encryptThenMAC', [S_, data, ctype], api.st):
+        if o.kind != 'normal':
+            api.unreachable(o.st, 'sender-does-not-raise(%s)' % getattr(o.val, 'origin', o.kind))
+            continue
+        for o2 in api.call(R + 'RecordLayer._macThenDecrypt', [Rv, ctype, o.val], o.st, inline=False):
+            if o2.kind != 'normal':
+                api.unreachable(o2.st, 'receiver-accepts(%s %s)' % (getattr(o2.val.cls, '__name__', '?'), o2.val.origin))
+                continue
+            ns = api.ns(o2.st)
+            api.oblige(o2.st, 'plaintext-equal', S.seq_eq(o2.val, data))
+            api.oblige(o2.st, 'seqnums-in-step', S.And(ns.f(ws, 'seqnum') == seq0 + 1, ns.f(rs, 'seqnum') == seq0 + 1))
+            api.oblige(o2.st, 'chaining-state-in-step',
+                       S.seq_eq(ns.f(ns.f(ws, 'encContext'), 'state'), ns.f(ns.f(rs, 'encContext'), 'state')))
+
+
+# --- stream / null cipher path ------------------------------------------------------------
+@scenario('roundtrip-MtE-stream', ('C01', 'C02'),
+          doc='_decryptStreamThenMAC(_macThenEncrypt(data)) == data for stream ciphers (RC4) with MAC')
+def rt_stream(api):
+    S_, Rv, ws, rs = _pair(api, 'stream')
+    data = api.make('data', T.bytes())
+    ctype = api.make('ctype', T.int())
+    _common_requires(api, S_, ws, data, ctype)
+    seq0 = api.ns(api.st).f(ws, 'seqnum')
+    for o in api.call(R + 'RecordLayer._macThenEncrypt', [S_, data, ctype], api.st):
+        if o.kind != 'normal':
+            api.unreachable(o.st, 'sender-does-not-raise(%s)' % getattr(o.val, 'origin', o.kind))
+            continue
+        for o2 in api.call(R + 'RecordLayer._decryptStreamThenMAC', [Rv, ctype, o.val], o.st):
+            if o2.kind != 'normal':
+                api.unreachable(o2.st, 'receiver-accepts(%s %s)' % (getattr(o2.val.cls, '__name__', '?'), o2.val.origin))
+                continue
+            ns = api.ns(o2.st)
+            api.oblige(o2.st, 'plaintext-equal', S.seq_eq(o2.val, data))
+            api.oblige(o2.st, 'seqnums-in-step', S.And(ns.f(ws, 'seqnum') == seq0 + 1, ns.f(rs, 'seqnum') == seq0 + 1))
+
+
+def _stream_tag_ok(ns, have_enc):
+    rs = _rs(ns)
+    mac = ns.f(rs, 'macContext')
+    ds = ns.f(mac, 'digest_size')
+    if have_enc:
+        enc = ns.f(rs, 'encContext')
+        d = VSeq(S.Dec(S.to_val(ns.f(enc, 'key')), ns.f(enc, 'state').t, ns.data.t), 'byte')
+    else:
+        d = ns.data
+    n = S.len_(d)
+    v = ns.f(ns.self, '_version')
+    seq = S.be(ns.f(rs, 'seqnum'), 8)
+    body = d[0:n - ds]
+    want_tls = S.mac_digest(ns.f(mac, 'key'), S.cat(ns.f(mac, 'fed'), mac_input_tls(seq, ns.recordType, v, body)))
+    want_ssl = S.mac_digest(ns.f(mac, 'key'), S.cat(ns.f(mac, 'fed'), mac_input_ssl(seq, ns.recordType, body)))
+    return S.And(n >= ds, S.ite(v == (3, 0), d[n - ds:n] == want_ssl, d[n - ds:n] == want_tls)), body
+
+
+for _vn, _have_enc in (('stream', True), ('null-cipher', False)):
+    contract(R + 'RecordLayer._decryptStreamThenMAC', name='RecordLayer._decryptStreamThenMAC[%s]' % _vn,
+             params={'self': record_layer(read=conn_state(mac=True, cipher='stream' if _have_enc else None)),
+                     'recordType': T.int(), 'data': T.bytes()},
+             requires=lambda ns: S.And(tls10_12(ns.f(ns.self, '_version')), ns.recordType >= 0, ns.recordType < 256,
+                                       S.len_(ns.data) < 65536,
+                                       ns.f(ns.f(_rs(ns), 'macContext'), 'digest_size') >= 1,
+                                       ns.f(ns.f(_rs(ns), 'macContext'), 'digest_size') <= 64),
+             result=T.bytes(),
+             raises={TLSBadRecordMAC: (lambda he: lambda ns: S.Not(_stream_tag_ok(ns, he)[0]))(_have_enc)},
+             ensures=(lambda he: lambda ns: S.And(_stream_tag_ok(ns.old, he)[0],
+                                                  ns.result == _stream_tag_ok(ns.old, he)[1]))(_have_enc),
+             prop=('C02', 'C01'),
+             doc='stream/null cipher: accepted only if the trailing MAC over seq||type||version||len||data matches in full')
+
+
+# --- AEAD path ------------------------------------------------------------------------------
+import tlslite.messages as MSG
+
+
+def _aead_pair(api, cname, nonce_len, tls13):
+    S_, Rv, ws, rs = _pair(api, 'aead', mac=False)
+    st = api.st
+    ns = api.ns(st)
+    for o in (ns.f(ws, 'encContext'), ns.f(rs, 'encContext')):
+        st.heap[(o.oid, 'name')] = S.VStr(cname)
+    enc = ns.f(ws, 'encContext')
+    st.assume(S.And(S.len_(ns.f(ws, 'fixedNonce')) == nonce_len,
+                    ns.f(enc, 'tagLength') >= 1, ns.f(enc, 'tagLength') <= 16,
+                    ns.f(enc, 'nonceLength') == 12))
+    if tls13:
+        st.assume(S.And(ns.f(S_, '_version') == (3, 4), ns.f(S_, '_tls13record')))
+    else:
+        st.assume(ns.f(S_, '_version') == (3, 3))
+    return S_, Rv, ws, rs
+
+
+def _mk_aead_rt(name, cname, nonce_len, tls13):
+    @scenario(name, ('C01', 'C02'),
+              doc='_decryptAndUnseal(_encryptThenSeal(data)) == data: sender and receiver build the same nonce and '
+                  'additional data from their own counters; AEAD: Open(k,n,Seal(k,n,p,a),a) == p assumed')
+    def rt(api):
+        S_, Rv, ws, rs = _aead_pair(api, cname, nonce_len, tls13)
+        st = api.st
+        data = api.make('data', T.bytes())
+        # in TLS 1.3 sendRecord always passes application_data as the outer type
+        ctype = VInt(23) if tls13 else api.make('ctype', T.int(0, 255))
+        st.assume(S.len_(data) < 16384 + 256)
+        # the record socket of the sender carries the wire version (3,3) in TLS 1.3 (set by _handle_tls13_record)
+        rsock = api.make('rsock', T.obj(RL.RecordSocket, version=T.tuple(T.int(), T.int())))
+        st.heap[(S_.oid, '_recordSocket')] = rsock
+        st.assume(api.ns(st).f(rsock, 'version') == (3, 3))
+        seq0 = api.ns(st).f(ws, 'seqnum')
+        for o in api.call(R + 'RecordLayer._encryptThenSeal', [S_, data, ctype], st):
+            if o.kind != 'normal':
+                api.unreachable(o.st, 'sender-does-not-raise(%s)' % getattr(o.val, 'origin', o.kind))
+                continue
+            wire = o.val
+            hdr = api.make('hdr', T.obj(MSG.RecordHeader3, type=T.int(), version=T.tuple(T.int(), T.int()),
+                                        length=T.int()), o.st)
+            nh = api.ns(o.st)
+            # the header the receiver sees is the one the sender's record socket wrote
+            o.st.assume(S.And(nh.f(hdr, 'type') == (23 if tls13 else ctype), nh.f(hdr, 'version') == (3, 3),
+                              nh.f(hdr, 'length') == S.len_(wire)))
+            for o2 in api.call(R + 'RecordLayer._decryptAndUnseal', [Rv, hdr, wire], o.st):
+                if o2.kind != 'normal':
+                    api.unreachable(o2.st, 'receiver-accepts(%s %s)' % (getattr(o2.val.cls, '__name__', '?'), o2.val.origin))
+                    continue
+                ns2 = api.ns(o2.st)
+                api.oblige(o2.st, 'plaintext-equal', S.seq_eq(o2.val, data))
+                api.oblige(o2.st, 'seqnums-in-step',
+                           S.And(ns2.f(ws, 'seqnum') == seq0 + 1, ns2.f(rs, 'seqnum') == seq0 + 1))
+    return rt
+
+
+_mk_aead_rt('roundtrip-AEAD-aesgcm-tls12', 'aes128gcm', 4, False)
+_mk_aead_rt('roundtrip-AEAD-chacha-tls12', 'chacha20-poly1305', 12, False)
+_mk_aead_rt('roundtrip-AEAD-tls13', 'aes128gcm', 12, True)
+
+
+for _p in ('C01', 'C02'):
+    REG.note(_p, 'trusted', 'bulk cipher objects by assumed interface contract (pyvc/spec.py CipherModel): length-preserving, '
+                            'Dec(k,s,Enc(k,s,p)) == p with chaining state in step; AEAD Open(k,n,Seal(k,n,p,a),a) == p, '
+                            'open() returns None exactly when OpenOk is false (justified per implementation under C09)')
+    REG.note(_p, 'trusted', 'HMAC / SSLv3-MAC objects: digest() = uninterpreted Hmac(key, bytes fed), length digest_size')
+    REG.note(_p, 'trusted', 'pyvc engine encoding of Python semantics (ints as mathematical integers, bytearray as axiomatised '
+                            'integer sequences, no aliasing between distinct bytearray values)')
+    REG.note(_p, 'assumptions', 'sequence numbers < 2^64-1 (tlslite-ng has no rekey-on-wrap: caller obligation)')
+    REG.note(_p, 'assumptions', 'fixedIVBlock has cipher block length (set by calcPendingStates)')
+REG.note('C01', 'not_built', 'TLSRecordLayer._sendMsg fragmentation / 1-n-1 split; readAsync FIFO; calcPendingStates key mirror; '
+                             'RecordSocket header round trip and size caps; sendRecord TLS1.3 inner-plaintext framing; composition lemma')
+REG.note('C01', 'assumptions', 'that a completed handshake leaves both ends with equal keys and sequence number 0 is C03/C04, not shown here')
+REG.note('C02', 'not_built', 'AESGCM/AESCCM/CHACHA20_POLY1305.open tag comparison (see C09 contracts); TLS1.3 outer header exceptions in recvRecord; '
+                             'early-data window; _getNextRecordFromSocket error->alert mapping; epoch separation frame scan')
+REG.note('C02', 'assumptions', 'step from "tag equals MAC/AEAD tag over (receiver counter, type, version, length, body) under the read key" to '
+                               '"the peer sent exactly this record next" is MAC/AEAD unforgeability: assumed, not proved')
